@@ -1,0 +1,28 @@
+//go:build verif
+// +build verif
+
+package auth
+
+// Helpers for the verification harness (build tag verif only).
+
+// VerifAge makes every stored token `seconds` older (both expiry times move into the
+// past by that amount), which is how the harness lets time pass without sleeping.
+func (tm *TokenManager) VerifAge(seconds int64) {
+	seen := map[*Token]bool{}
+	tm.tokens.Range(func(k, v interface{}) bool {
+		t := v.(*Token)
+		if !seen[t] {
+			seen[t] = true
+			t.AExp -= seconds
+			t.RExp -= seconds
+		}
+		return true
+	})
+}
+
+// VerifKeys returns how many keys the token table holds.
+func (tm *TokenManager) VerifKeys() int {
+	n := 0
+	tm.tokens.Range(func(k, v interface{}) bool { n++; return true })
+	return n
+}
